@@ -62,7 +62,9 @@ End Fold.
 
 (* ------------------------------------------------------------------ nothing else survives a sentence (generated facts) *)
 Definition carried (cls : string) : list string :=
-  if String.eqb cls "CNLTransformer" then ["_specification"; "_problem"]
+  (* _sentence_variables: the author's variables of each sentence, read off the parse tree before the transformation starts; every
+     sentence consumes exactly its own entry (in _clear), so nothing one sentence computes reaches another through it *)
+  if String.eqb cls "CNLTransformer" then ["_specification"; "_problem"; "_sentence_variables"]
   else if String.eqb cls "ASPConverter" then ["_asp_encoding"; "_program"; "_converted_complex_entities"] else [].
 
 Definition class_ok (row : string * list string * list string * list string) : bool :=
